@@ -28,6 +28,9 @@ func focusWeights(focus string) weights {
 		w["dup"], w["replay"], w["corrupt"], w["pump"] = 12, 10, 8, 10
 	case "C06":
 		w["adv"], w["advmsg"], w["gov"], w["corrupt"], w["tss"], w["xrestart"], w["forge"] = 14, 6, 8, 6, 14, 3, 5
+	case "C07":
+		// the proof-delay clause: relays at plan-chosen heights, replays, clock effects
+		w["relay"], w["dup"], w["replay"], w["skew"], w["stall"], w["pump"] = 16, 8, 8, 4, 3, 8
 	case "C17":
 		w["send"], w["pump"] = 30, 12
 	case "C13":
@@ -49,7 +52,7 @@ func (Scenario) Generate(rng *rand.Rand, focus, tier string) kernel.Plan {
 		"rev_off":     rng.Int63n(5),
 		"weird_names": kernel.B2I(focus == "C19" || kernel.Chance(rng, 0.25)),
 		"name_off":    rng.Int63n(20),
-		"delay_s":     kernel.B2I(kernel.Chance(rng, 0.2)) * (1 + rng.Int63n(20)),
+		"delay_s":     kernel.B2I(focus == "C07" || kernel.Chance(rng, 0.2)) * (1 + rng.Int63n(20)),
 		"tss":         kernel.B2I(focus == "C06" || kernel.Chance(rng, 0.4)),
 		"tss_name":    rng.Int63n(2),
 		"subproc":     kernel.B2I(focus == "C14" && kernel.Chance(rng, 0.3)) * (1 + rng.Int63n(3)),
@@ -80,6 +83,9 @@ func (Scenario) Generate(rng *rand.Rand, focus, tier string) kernel.Plan {
 	nc, nr := cfg["chains"], cfg["relayers"]
 	invalidDst := func() int64 {
 		if focus == "C04" && kernel.Chance(rng, 0.25) || kernel.Chance(rng, 0.04) {
+			if kernel.Chance(rng, 0.5) {
+				return -4 - rng.Int63n(64) // look-alike spelling of a known destination
+			}
 			return -1 - rng.Int63n(3)
 		}
 		return rng.Int63n(3)
